@@ -582,7 +582,29 @@ func (x *Exec) applyContract(st *State, in *ssa.Call, k *FuncSpec, sig *types.Si
 			if label == "" {
 				label = fmt.Sprintf("%s.%d", shortCallee(ca.Callee), nth)
 			}
-			g := x.evalBool(cenv, ca.C.E)
+			// an assertion that names a caller local is meant for the call sites where that local is in scope; elsewhere it
+			// does not apply (noted). A label that applies nowhere is reported as not analysable at the end of the function.
+			var g *Term
+			func() {
+				defer func() {
+					if r := recover(); r != nil {
+						if msg, ok := r.(string); ok && strings.HasPrefix(msg, "contract: unknown name") {
+							x.note("atcall %s does not apply at %s (%s)", label, x.w.Fset.Position(in.Pos()), msg)
+							g = nil
+							return
+						}
+						panic(r)
+					}
+				}()
+				g = x.evalBool(cenv, ca.C.E)
+			}()
+			if g == nil {
+				continue
+			}
+			if x.atcallApplied == nil {
+				x.atcallApplied = map[string]bool{}
+			}
+			x.atcallApplied[label] = true
 			if os.Getenv("GVC_DEBUG_ATCALL") != "" {
 				fmt.Fprintf(os.Stderr, "ATCALL %s nth=%d goal=%s\n", calleeName, nth, g.String())
 			}
